@@ -686,7 +686,7 @@ func Child(r *ev.Run, args []string) {
 // Run is the C04 monitor (parent).
 func Run(r *ev.Run) {
 	r.Rule = "run i = f(seed,i): 2-32 goroutines x 5-120 calls, each call a pure function of (run, goroutine, sequence number): one of 15 front ends (Logger methods, Check+Write, Sugar w/f/ln, std-log bridge, zapio.Writer, slog handler, With/WithLazy/Named children created concurrently), payloads 0 B-70 KB (crossing the 1 KiB pooled buffer and the BufferedWriteSyncer size), unique id in the message; shared core = 1-3 tee branches of JSON/console over Lock(sink), BufferedWriteSyncer (64 B-64 KiB) with harness ticks and concurrent Sync, zap.Open file, CombineWriteSyncers, optionally a failing branch in front; sinks below zap's locks are unsynchronised; race build with quiet perturbation; every received line is compared byte-for-byte with the line the same call yields sequentially; distinct = distinct run specs"
-	total := r.N(200, 12000)
+	total := r.N(200, 4000)
 	batch := r.N(20, 200)
 	type job struct{ lo, hi int }
 	jobs := make(chan job)
